@@ -2,7 +2,9 @@ package mon
 
 import (
 	"fmt"
+	"math"
 	"strconv"
+	"sync"
 	"sync/atomic"
 
 	"verif/harness/lib"
@@ -121,7 +123,16 @@ func checkMetricTables(w *W, md *metricDesc, repeats int) {
 	for _, c := range md.cst {
 		defined[c] = true
 	}
-	for v := -2; v <= maxEnum+3; v++ {
+	ints := []int{math.MinInt, math.MinInt32, math.MaxInt32, math.MaxInt, 1 << 32, 1<<32 + 1, 1<<32 + 2, 1<<32 + 3, 1 << 31, 1<<31 + 1}
+	for v := -1100; v <= 1100; v++ {
+		ints = append(ints, v)
+	}
+	for _, b := range []int{1 << 15, 1 << 16, -(1 << 16), 1 << 24, 65536 * 3} {
+		for d := -8; d <= 8; d++ {
+			ints = append(ints, b+d)
+		}
+	}
+	for _, v := range ints {
 		if defined[v] {
 			continue
 		}
@@ -244,15 +255,46 @@ func runC20(r *Run) int {
 	}
 	cands = append(cands, "None", "High", "Low", "Network", "NOTDEFINED", "Not Defined", "x", "nd", "Nd", "poc", "\xff", string(make([]byte, 4096)))
 	var wsum atomic.Int64
-	r.Parallel(len(descs), 1, func(w *W, i int) {
-		md := &descs[i]
-		checkMetricTables(w, md, repeats)
-		for _, s := range cands {
-			checkCandidate(w, md, s)
-		}
-		wsum.Add(1)
-		w.Sample(map[string]interface{}{"metric": codeCase(md, "").Kind, "codes": md.codes, "weights": md.w})
-	})
+	// two passes: the second one runs after every metric of both versions has been looked up (a lookup
+	// structure filled on first use could change what other metrics parse)
+	for pass := 0; pass < 2; pass++ {
+		r.Parallel(len(descs), 1, func(w *W, i int) {
+			md := &descs[(i*7+pass*5)%len(descs)]
+			checkMetricTables(w, md, repeats)
+			for _, s := range cands {
+				checkCandidate(w, md, s)
+			}
+			if pass == 0 {
+				wsum.Add(1)
+				w.Sample(map[string]interface{}{"metric": codeCase(md, "").Kind, "codes": md.codes, "weights": md.w})
+			}
+		})
+	}
+	// concurrent lookups: 8 goroutines go through all metrics, codes, near-miss strings and version labels at once
+	near := []string{"VN", "VP", "VL", "VA", "CH", "CL", "N", "X", "ND", "", "H", "L", "POC"}
+	var wgc sync.WaitGroup
+	for g := 0; g < 8; g++ {
+		wgc.Add(1)
+		go func(g int) {
+			defer wgc.Done()
+			w := r.NewW()
+			defer w.Merge()
+			for round := 0; round < r.Pick(30, 300); round++ {
+				for i := range descs {
+					md := &descs[(i+g*5)%len(descs)]
+					for _, code := range md.codes {
+						checkCandidate(w, md, code)
+					}
+					for _, s := range near {
+						checkCandidate(w, md, s)
+					}
+				}
+				checkVersions(w, near, 1)
+			}
+			w.Count("concurrent_lookup_goroutines")
+		}(g)
+	}
+	wgc.Wait()
 	// scope predicates
 	w := r.NewW()
 	for s := 0; s < 2; s++ {
@@ -284,7 +326,7 @@ func runC20(r *Run) int {
 	if r.Thorough() {
 		lens += " and all upper-case strings of length 4"
 	}
-	return r.Finish("exhaustive per metric (22 v3 + 14 v2) against the specification tables: Get(code) gives the constant (by exported name) and String() the code back, each lookup repeated (map-iteration nondeterminism); every other candidate string ("+lens+", codes of other metrics padded/doubled, empty, long, non-UTF-8) parses to the unknown/invalid constant; that constant prints empty and the metric's validity predicate separates it from every defined value (either polarity); integers -2..max+3 outside the enumeration print empty; Value() equals the specification weight as the identical float64 incl. PR x scope, Modified* x base value, MPR x MS x S x PR; scope predicates; version label parser/printer of v3/metric and v3/version; distinct non-trivial = distinct (metric, code) pairs",
+	return r.Finish("exhaustive per metric (22 v3 + 14 v2) against the specification tables: Get(code) gives the constant (by exported name) and String() the code back, each lookup repeated (map-iteration nondeterminism); every other candidate string ("+lens+", codes of other metrics padded/doubled, empty, long, non-UTF-8) parses to the unknown/invalid constant; that constant prints empty and the metric's validity predicate separates it from every defined value (either polarity); integers outside the enumeration (-1100..1100, around +-2^15/2^16/2^24/2^31/2^32, MinInt/MaxInt) print empty; all of this in two passes (the second after every metric has been looked up) and once more from 8 goroutines at once; Value() equals the specification weight as the identical float64 incl. PR x scope, Modified* x base value, MPR x MS x S x PR; scope predicates; version label parser/printer of v3/metric and v3/version; distinct non-trivial = distinct (metric, code) pairs",
 		true, int64(r.SetSize("codes")), 100000, 100, TrustedBase)
 }
 
